@@ -51,6 +51,21 @@ impl DbcVersion {
     }
 }
 
+/// Offset of the record area in the raw bytes of a DBC/DB2 file: behind the version-specific
+/// header (and, for WDB2, behind the index arrays). The readers that are handed the raw file
+/// together with a converted [`DbcHeader`] (lazy, parallel, memory-mapped) use this to find the
+/// records. Data that does not start with a WDB2/WDB5 header is taken as WDBC.
+pub fn record_data_offset(data: &[u8]) -> u64 {
+    let mut cursor = std::io::Cursor::new(data);
+    match DbcVersion::detect(&mut cursor) {
+        Ok(DbcVersion::WDB2) => Wdb2Header::parse(&mut cursor)
+            .map(|h| h.record_data_offset())
+            .unwrap_or(DbcHeader::SIZE as u64),
+        Ok(DbcVersion::WDB5) => Wdb5Header::SIZE as u64,
+        _ => DbcHeader::SIZE as u64,
+    }
+}
+
 /// WDB2 header (Cataclysm 4.0+)
 ///
 /// The WDB2 format was introduced in Cataclysm and has two variants:
